@@ -12,6 +12,7 @@
 import Aqv.Lemmas.VmMain
 import Aqv.Lemmas.VmMemAccess
 import Aqv.Lemmas.VmPrecompile
+import Aqv.Lemmas.VmConv
 import Aqv.Lemmas.Translated.VmNat
 namespace Aqv.Props.C07
 open Aqv.Vm Aqv.Gen.VmFlags
@@ -376,9 +377,12 @@ theorem no_modelled_panic_stack_memory (env : Env) (i : StepIn W) (fr : Frame) (
 /-- `mem_operand_conversions_exact_partial`: the big.Int → int64/uint64 conversions of the operands that feed the generated
     memory ranges are exact whenever the range is dereferenced (length > 0): offset + length ≤ memorySize ≤ 0xffffffffe0 < 2^63,
     because every opcode with a memory-size function has a gas function that went through memoryGasCost.
-    PARTIAL: only these operands. Other conversions and slice expressions in the execute bodies (pos.Uint64() in opJump,
-    getDataBig's slices, common.RightPadBytes(…, int(size)), return-data slicing, the precompiles) are not derived; for them
-    the harness' recover() on the real code is the only check. -/
+    PARTIAL: this theorem covers the memory operands; all other conversions of the execute functions (opJump's pos, getDataBig's
+    slices and RightPadBytes size, return-data slicing, shifts, BYTE, SIGNEXTEND, BLOCKHASH) are classified by
+    `conversions_guarded` below. NOT derived, by name: makePush's slicing of contract.Code (plain int arithmetic with explicit
+    min-clamps, no big.Int conversion), the polarity of a dominating check (which branch the conversion sits on), the bodies
+    of common.RightPadBytes/LeftPadBytes/PaddedBigBytes, destinations.has/codeBitmap, and contracts.go (precompile bodies) — for
+    these the harness' recover() on the real code is the only check. -/
 theorem mem_operand_conversions_exact_partial (env : Env) (i : StepIn W) (fr : Frame) (db : Db W) (t : Nat)
     (f : OpF) (g : GasOut) (memorySize : Nat) (db1 : Db W) (hpre : pre env i fr db t = .go f g memorySize db1) :
     ∀ r ∈ f.execRanges, 0 < r.2.eval i.args → r.1.eval i.args + r.2.eval i.args ≤ 0xffffffffe0 := by
@@ -400,6 +404,39 @@ example : ∃ f g db1, pre envSpring (⟨0x52, [0x40, 7], 2, true, false, false,
     ⟨1000, 2, ⟨0, 0⟩, 1000, 1, false⟩ db0 0 = .go f g 0x60 db1 ∧ f.execRanges = [(.back 0 0, .const 32)] ∧
     (paidFrame ⟨1000, 2, ⟨0, 0⟩, 1000, 1, false⟩ f g 0x60).mem.len = 0x60 := by
   refine ⟨_, _, _, rfl, rfl, rfl⟩
+
+/-! ## big.Int → machine-integer conversions of the execute functions -/
+
+/-- `conversions_guarded`: every `(*big.Int).Uint64()` / `Int64()` call in every execute function of core/vm (and in the helpers
+    they hand operands to: getDataBig, bigUint64, callGas) — GENERATED from the source by the go/ssa pass vmaccess: receiver
+    (entry operand Back(k) / big.Int computed from operands / BigMin result / helper parameter / other), what the result feeds,
+    and the dominating check — falls in one of the classes of `convOK`; every `size` handed to getDataBig is big32 or the
+    size operand of a generated memory range of the same function (`helperOK`); no function was left unanalysed. By op:
+    * opSha3, opMload, opMstore, opMstore8 (offset), opCallDataCopy/opCodeCopy/opExtCodeCopy/opReturnDataCopy (memOffset, length),
+      opCreate, opCall/opCallCode/opDelegateCall/opStaticCall, opReturn, opRevert, makeLog: feed Memory accessors only — class B,
+      bounded and exact by `mem_access_in_bounds` / `mem_operand_conversions_exact_partial` (the memory-size check of Run);
+    * opMstore8 (value `& 0xff`), makeLog (evm.BlockNumber → Log.BlockNumber): stored as data — class B;
+    * opJump / opJumpi: `pos.Uint64()` → `*pc` and → contract.GetOp (bounds-checked itself): dominated by destinations.has(pos),
+      which rejects BitLen ≥ 63 — class A;
+    * opReturnDataCopy: `end.Uint64()` (slice bound, comparison) dominated by `end.BitLen() > 64`; `dataOffset.Uint64()` (slice
+      bound) and `length.Uint64()` are addends of that checked sum — class A (`sum`);
+    * opBlockhash (Cmp window), opByte (Cmp 32), opSignExtend (Cmp 31), opSHL/opSHR/opSAR (Cmp 256): class A;
+    * getDataBig: both slice bounds are results of math.BigMin with len(data) — class A (`min`); `size.Uint64()` → RightPadBytes:
+      class D, per call site: opCallDataLoad passes big32, the three copy opcodes pass their `length` operand, which is the size
+      of their generated memory range;
+    * bigUint64: returns `v.BitLen() > 64` with the value (class C; its callers — Run and the gas functions — test the flag: modelled
+      as the `≥ 2^64` checks of `memorySizeOf` / `gasCost`, tied by trace replay); callGas: dominated by BitLen — class A. -/
+theorem conversions_guarded :
+    convs.all convOK = true ∧ helperCalls.all (fun h => helperOK h && helperKnown h) = true ∧ convUnanalysed = [] :=
+  ⟨convs_ok, helpers_ok, conv_all_analysed⟩
+
+-- the table is not trivial: a slice bound from a bare operand with no check would be rejected
+example : convOK ⟨"opX", "Uint64", .back 1, [.slice], .none, "", ""⟩ = false := by decide
+-- … and so would one whose only "check" compares the already truncated value
+example : convOK ⟨"opX", "Uint64", .back 1, [.slice], .direct, "Uint64", ""⟩ = false := by decide
+example : convs.any (fun c => c.fn == "opReturnDataCopy" && c.src == .back 1 && c.uses == [.slice] && c.guard == .sum) = true := by decide
+example : convs.any (fun c => c.fn == "opJump" && c.uses == [.pc] && c.guard == .direct) = true := by decide
+example : helperCalls.any (fun h => h.fn == "opCodeCopy" && h.helper == "getDataBig" && h.arg == 2 && h.opnd == some 2) = true := by decide
 
 /-! ## precompiles: buffers materialised from announced lengths are paid for -/
 
@@ -430,6 +467,38 @@ example : Pre.modexpGas 0 (2 ^ 26) 0 0 = 0 ∧ Pre.modexpRunBuffers 0 (2 ^ 26) 0
 example : Pre.modexpGas 0 (2 ^ 16) 1 0 = 26201 ∧ Pre.modexpRunBuffers 0 (2 ^ 16) 1 = 65538 := by decide
 -- hypotheses satisfiable: a 96-byte header (1, 1, 1) with 10000 gas runs and is charged 0 (1·1·1/20)
 example : (Pre.runPrecompile 5 ((List.replicate 31 0 ++ [1]) ++ (List.replicate 31 0 ++ [1]) ++ (List.replicate 31 0 ++ [1])) 10000) = (true, 10000) := by decide
+
+/-- `precompile_alloc_bounded_by_gas` for ecrecover (1), sha256 (2), ripemd160 (3), identity (4) and the bn256 stand-ins (6–8):
+    the bytes `Run` materialises are a constant (≤ 225, plus constant-size hash / curve scratch), the output is 32 bytes, empty,
+    or the input slice itself, and the number of block steps is at most the gas RequiredGas charges — for every input. What
+    grows with the input is only the input itself, which is not allocated by the precompile: at top level it is the caller's
+    slice, inside the EVM it is `memory.Get(inOffset, inSize)` of the CALL step, paid for by that step's memory expansion
+    (next theorem). -/
+theorem precompile_alloc_bounded_by_gas (addr : Nat) (h1 : 1 ≤ addr) (h8 : addr ≤ 8) (h5 : addr ≠ 5) (input : Aqv.Bytes) :
+    Pre.runBuffers addr input ≤ 225 ∧
+    (∀ n, Pre.outLen addr input = some n → n ≤ max 32 input.length) ∧
+    Pre.runSteps addr input ≤ Pre.requiredGas addr input :=
+  ⟨Pre.runBuffers_const addr h5 input, fun n h => Pre.outLen_le addr h5 input n h, Pre.runSteps_le_gas addr h5 h1 h8 input⟩
+
+example : Pre.runBuffers 1 [] = 225 ∧ Pre.requiredGas 2 (List.replicate 100 0) = 108 ∧ Pre.runSteps 2 (List.replicate 100 0) = 3 := by decide
+
+/-- `precompile_input_paid_by_call_memory`: the dependency made explicit. At a CALL-family (or any) step that gets past `pre`,
+    every memory range the execute function dereferences — for opCall/opCallCode/opDelegateCall/opStaticCall the generated
+    ranges are exactly the callee's input (inOffset, inSize) and the return area (retOffset, retSize) — has its length within
+    the frame's memory, and that memory's total fee 3w + w²/512 plus the gas left is at most the gas the frame was given
+    (`memory_paid`): the input a precompile receives was paid for by the caller's memory expansion. -/
+theorem precompile_input_paid_by_call_memory (env : Env) (i : StepIn W) (fr : Frame) (db : Db W) (t : Nat)
+    (f : OpF) (g : GasOut) (memorySize : Nat) (db1 : Db W) (hfr : FrameInv fr) (hpre : pre env i fr db t = .go f g memorySize db1) :
+    ∀ r ∈ f.execRanges, 0 < r.2.eval i.args →
+      r.2.eval i.args ≤ (paidFrame fr f g memorySize).mem.len ∧ Spec.memoryPaid (eventOf fr i f g memorySize) = true := by
+  intro r hr hpos
+  have h := (no_modelled_panic_stack_memory env i fr db t f g memorySize db1 hpre).2.2.2 r hr hpos
+  exact ⟨by omega, (paid_inv hfr hpre).2.1.1⟩
+
+-- CALL with 0x20 bytes of input at 0x40 from a fresh frame holding 10000 gas: passes `pre`; input and return ranges generated
+example : ∃ f g db1, pre envSpring (⟨0xf1, [100, 2, 0, 0x40, 0x20, 0, 0], 2, true, false, false, id, false, id, true, none, false, false, 0, id, id, id, false, id⟩ : StepIn Nat)
+    ⟨10000, 7, ⟨0, 0⟩, 10000, 1, false⟩ db0 0 = .go f g 0x60 db1 ∧ f.execRanges = [(.back 3 0, .back 4 0), (.back 5 0, .back 6 0)] := by
+  refine ⟨_, _, _, rfl, rfl⟩
 
 /-! ### tie by translation (T-gen `translated`, DESIGN 2.2 mini-translator)
 
